@@ -75,6 +75,42 @@ func (s *Sim) oracleOnHandOver(c *Client, rid string, f *Frame, r *CReq) {
 	s.accessOnHandOver(c, rid, f, r)
 }
 
+// oracleInvalidRequest is C14.c for WebSocket requests: a method string that
+// is not <action>.<valid rid>[.<valid method>] with a known action is answered
+// with system.invalidRequest, and nothing is asked of any service because of it.
+func (s *Sim) oracleInvalidRequest(c *Client, r *CReq, f *Frame) {
+	if s.gwStopped {
+		return
+	}
+	s.stat("oracle.C14.c", 1)
+	if f.Error == nil || f.Error.Code != "system.invalidRequest" {
+		c.violate("C14", "c", "invalid-request-accepted", "client %s: request %q is not a valid request but was answered %s", c.Name, r.Method, trunc(f.Raw, 160))
+	}
+	// traffic: only judged when nothing else of this connection was going on
+	for _, o := range c.ReqL {
+		if o != r && o.Seq < f.Seq && (o.Resp == nil || o.Resp.Seq > r.Seq) {
+			return
+		}
+	}
+	for _, n := range c.Direct {
+		if n > 0 {
+			return
+		}
+	}
+	s.mu.Lock()
+	var hit *Req
+	for _, q := range s.tr.reqs {
+		if q.CIdx == c.CIdx && q.Seq > r.Seq && q.Type != "auth" {
+			hit = q
+			break
+		}
+	}
+	s.mu.Unlock()
+	if hit != nil {
+		c.violate("C14", "c", "traffic-for-invalid-request", "client %s: the invalid request %q caused service request %s", c.Name, r.Method, hit.ID)
+	}
+}
+
 // oracleAfresh is C08.c: a subscribe or get request for a resource the
 // connection has nothing of - never held, no other request touching it in the
 // meantime - is evaluated afresh: an access request for it is sent to the
@@ -1073,6 +1109,12 @@ func (s *Sim) nonTrivial() bool {
 		return st["fault.token_reset"] > 0 || st["fault.token_event"] >= 2
 	case "C11":
 		return st["fault.client_disconnect"] > 0 && st["oracle.C11.a_seam"] > 0
+	case "C14":
+		return st["oracle.C14.c"] > 0
+	case "C16":
+		return st["oracle.C16.a"]+st["oracle.C16.c"] > 0
+	case "C17":
+		return st["oracle.C17.a"]+st["oracle.C17.b"]+st["oracle.C17.d"] > 0
 	case "C20":
 		return st["oracle.C20.b"] > 0 && st["oracle.C20.a"] > 0
 	case "C12":
